@@ -1,6 +1,8 @@
 (* Executable model of TasDREAM::SampleDREAM (DREAM/tsgDreamSample.hpp:413-508) and of the parts of
    TasmanianDREAM (DREAM/tsgDreamState.{hpp,cpp}) it uses: setState / setPDFvalues / getIJKdelta /
-   getChainState / getPDFvalue / saveStateHistory (C15).
+   getChainState / getPDFvalue / saveStateHistory, and of its public operations that edit the state or the
+   caches between runs: both setState overloads, both setPDFvalues overloads, clearPDFvalues, clearHistory,
+   expandHistory (C15).
 
    The model is generic
    - in the number type R and its operations (so every theorem holds for IEEE binary64, the instance
@@ -179,6 +181,68 @@ Section Dream.
         (st1, w1, e0 ++ e1)
     end.
 
+  (* ---- the public operations of TasmanianDREAM that edit the chain state or the caches between runs ---- *)
+  Definition dim_of (st : dstate) : nat := length (hd [] (chains st)).
+  Definition same_shape (st : dstate) (cs : list (list R)) : bool :=
+    (length cs =? length (chains st)) && forallb (fun c => length c =? dim_of st) cs.
+
+  (* setState(const std::vector<double>&): size check (else throws, nothing changes), state := new,
+     init_values := false (the cached values are stale and must be re-evaluated by the next run) *)
+  Definition set_state (cs : list (list R)) (st : dstate) : dstate :=
+    if same_shape st cs then mkds cs (pdfv st) false (hist st) (pdfh st) (acc st) else st.
+
+  (* setState(callback overload, a std::function over a pointer to one chain): the callback rewrites every chain
+     in place; init_values := false *)
+  Definition set_state_fn (f : list R -> list R) (st : dstate) : dstate :=
+    mkds (map f (chains st)) (pdfv st) false (hist st) (pdfh st) (acc st).
+
+  (* setPDFvalues(const std::vector<double>&): size check, the USER asserts the cached values *)
+  Definition set_pdf_values (vs : list R) (st : dstate) : dstate :=
+    if length vs =? length (chains st) then mkds (chains st) vs true (hist st) (pdfh st) (acc st) else st.
+
+  (* setPDFvalues(probability_distribution): one batched call on the whole state *)
+  Definition set_pdf_fn (st : dstate) : dstate * list event :=
+    (mkds (chains st) (map pdf (chains st)) true (hist st) (pdfh st) (acc st),
+     [EvPdf (chains st) (map pdf (chains st))]).
+
+  (* clearPDFvalues() *)
+  Definition clear_pdf (st : dstate) : dstate := mkds (chains st) [] false (hist st) (pdfh st) (acc st).
+
+  (* clearHistory(): also resets the acceptance counter, does not touch the state *)
+  Definition clear_hist (st : dstate) : dstate := mkds (chains st) (pdfv st) (pdf_ready st) [] [] 0.
+
+  Inductive op :=
+  | OpRun (nb nc : Z)
+  | OpSetState (cs : list (list R))
+  | OpSetStateFn (f : list R -> list R)
+  | OpSetPdf (vs : list R)
+  | OpSetPdfFn
+  | OpClearPdf
+  | OpClearHist
+  | OpExpand (k : Z).                                  (* expandHistory: reserve() only *)
+
+  Definition apply_op (o : op) (st : dstate) (w : W) : dstate * W * list event :=
+    match o with
+    | OpRun nb nc => run nb nc st w
+    | OpSetState cs => (set_state cs st, w, [])
+    | OpSetStateFn f => (set_state_fn f st, w, [])
+    | OpSetPdf vs => (set_pdf_values vs st, w, [])
+    | OpSetPdfFn => let (st', e) := set_pdf_fn st in (st', w, e)
+    | OpClearPdf => (clear_pdf st, w, [])
+    | OpClearHist => (clear_hist st, w, [])
+    | OpExpand _ => (st, w, [])
+    end.
+
+  (* a history of runs and edits on one state object *)
+  Fixpoint run_ops (ops : list op) (st : dstate) (w : W) : dstate * W * list event :=
+    match ops with
+    | [] => (st, w, [])
+    | o :: r =>
+        let '(st1, w1, e1) := apply_op o st w in
+        let '(st2, w2, e2) := run_ops r st1 w1 in
+        (st2, w2, e1 ++ e2)
+    end.
+
   (* ---- specification of the accept rule (used by the theorem c15_accept_rule; not extracted) ---- *)
   (* chain with proposal p, current state old and cached value cur: result (state, cached value, moved?) *)
   Definition accept1 (p old : list R) (cur : R) (w : W) : list R * R * bool * W :=
@@ -237,3 +301,5 @@ End Dream.
 Arguments mkds {R}.
 Arguments EvRnd {R}. Arguments EvDiff {R}. Arguments EvGet {R}. Arguments EvUpd {R}.
 Arguments EvInside {R}. Arguments EvPdf {R}.
+Arguments OpRun {R}. Arguments OpSetState {R}. Arguments OpSetStateFn {R}. Arguments OpSetPdf {R}.
+Arguments OpSetPdfFn {R}. Arguments OpClearPdf {R}. Arguments OpClearHist {R}. Arguments OpExpand {R}.
